@@ -382,3 +382,6 @@ func init() {
 		Exec: execC25, Shrink: shrinkCfg,
 	})
 }
+
+// ShrinkCfg exposes the stack shrinker to other checks.
+func ShrinkCfg(c Cfg) []Cfg { return shrinkCfg(c) }
